@@ -99,7 +99,7 @@ fn build_image(path: &Path, version: u32, ambiguous_marker: bool) -> Decoded {
     let mut file = OpenOptions::new().write(true).open(path).unwrap();
     let mut sector = FEOX_DATA_START_BLOCK;
     let mut live: Vec<(Vec<u8>, Vec<u8>, u64, u64)> = Vec::new();
-    let mut put = |file: &mut File, sector: &mut u64, key: &[u8], value: &[u8], ts: u64, exp: u64, counted: bool, live: &mut Vec<(Vec<u8>, Vec<u8>, u64, u64)>| {
+    let put = |file: &mut File, sector: &mut u64, key: &[u8], value: &[u8], ts: u64, exp: u64, counted: bool, live: &mut Vec<(Vec<u8>, Vec<u8>, u64, u64)>| {
         // the v1 record layout has no expiry field
         let exp = if version == 1 { 0 } else { exp };
         let bytes = serialized_record(version, key, value, ts, exp);
